@@ -952,13 +952,23 @@ def rule_keywords(P) -> RuleResult:
     kws = {k.upper() for k in model.keywords}
     toks = set()
 
+    spaced = set()
+
     def walk(x):
         if isinstance(x, G.Token) and x.token.isalpha():
             toks.add(x.token.upper())
+        elif isinstance(x, G.Token) and re.search(r'\s', x.token):
+            spaced.add(x.token)
         for c in _children(x):
             walk(c)
     for r in model.rules:
         walk(r.exp)
+    for t in sorted(spaced):
+        res.fail('grammar:tokens', f'keywords:spaced:{t.upper()}', f'the token `{t}` contains white space: a token is matched character by '
+                 f'character, so its words must be separated by exactly that white space - a line break, two blanks or a comment between '
+                 f'them, which BQL allows between any two words, is rejected (and the words are no longer checked as reserved)')
+    if not spaced:
+        res.ok({'tokens_with_white_space': 0, 'word_tokens': len(toks)})
     for t in sorted(toks):
         if t in kws and t in UNRESERVED:
             res.fail('grammar:@@keyword', f'keywords:reserved:{t}', f'`{t}` is a word of BQL that is also a legal identifier (a target alias, an '
@@ -1038,3 +1048,157 @@ def rule_clauseorder(P) -> RuleResult:
             res.fail(f'grammar:{name}', f'clauseorder:{name}:fields', f'rule {name}: the statement has the clauses {want}; the grammar '
                      f'captures {got}')
     return res
+
+
+# ----------------------------------------------------------------------
+# R-CLAUSELANG (C06, C15): every clause rule derives the word sequences of the published language - no more and no fewer
+
+# the syntactic categories a clause is written in terms of; any other rule a clause refers to is expanded in place
+CATEGORIES = ('select', 'target', 'asterisk', 'table', 'from', 'expression', 'groupby', 'order', 'pivotby', 'integer', 'date',
+              'identifier', 'column', 'string')
+
+
+def _S(*xs):
+    return ('seq',) + xs
+
+
+def _O(*xs):
+    return ('opt', _S(*xs))
+
+
+def _A(*xs):
+    return ('alt',) + xs
+
+
+def _L(x, sep=','):
+    return ('list', x, sep)
+
+
+_CLOSE = _O('CLOSE', _O('ON', '<date>'))
+CLAUSE_LANGUAGE = {
+    'select': _S('SELECT', _O('DISTINCT'), _A(_L('<target>'), '<asterisk>'),
+                 _O('FROM', _A('<table>', _S('(', '<select>', ')'), '<from>')), _O('WHERE', '<expression>'),
+                 _O('GROUP', 'BY', '<groupby>'), _O('ORDER', 'BY', _L('<order>')), _O('PIVOT', 'BY', '<pivotby>'), _O('LIMIT', '<integer>')),
+    'from': _A(_S('OPEN', 'ON', '<date>', _CLOSE, _O('CLEAR')), _S('CLOSE', _O('ON', '<date>'), _O('CLEAR')), 'CLEAR',
+               _S('<expression>', _O('OPEN', 'ON', '<date>'), _CLOSE, _O('CLEAR'))),
+    'groupby': _S(_L(_A('<integer>', '<expression>')), _O('HAVING', '<expression>')),
+    'order': _S(_A('<integer>', '<expression>'), _O(_A('ASC', 'DESC'))),
+    # PIVOT BY takes exactly two columns, each given by name or by position independently of the other
+    'pivotby': _S(_A('<integer>', '<column>'), ',', _A('<integer>', '<column>')),
+    'target': _S('<expression>', _O('AS', '<identifier>')),
+    'balances': _S('BALANCES', _O('AT', '<identifier>'), _O('FROM', '<from>'), _O('WHERE', '<expression>')),
+    'journal': _S('JOURNAL', _O('<string>'), _O('AT', '<identifier>'), _O('FROM', '<from>')),
+    'print': _S('PRINT', _O('FROM', '<from>')),
+}
+
+
+def _spec_shapes(x, cap=20000):
+    """Word sequences of a specification term; a list stands for one and for two elements (enough to tell `x`, `x {sep x}` and
+    a wrong or missing separator apart)."""
+    if isinstance(x, str):
+        return {(x,)}
+    k = x[0]
+    if k == 'seq':
+        cur = {()}
+        for y in x[1:]:
+            cur = {a + b for a in cur for b in _spec_shapes(y)}
+            if len(cur) > cap:
+                raise AnalysisError('clause language: too many sequences')
+        return cur
+    if k == 'opt':
+        return {()} | _spec_shapes(x[1])
+    if k == 'alt':
+        out = set()
+        for y in x[1:]:
+            out |= _spec_shapes(y)
+        return out
+    if k == 'list':
+        one = _spec_shapes(x[1])
+        return one | {a + (x[2],) + b for a in one for b in one}
+    raise AnalysisError(f'clause language: bad specification term {x!r}')
+
+
+def _grammar_shapes(rules, e, stack=(), cap=20000):
+    """Word sequences the grammar expression derives: tokens in upper case, `<category>` for the rules of CATEGORIES, every other rule
+    expanded in place; repetitions stand for the counts the specification lists (closure: 0-2, positive: 1-2)."""
+    G = _G()
+
+    def cat(a, b):
+        out = {x + y for x in a for y in b}
+        if len(out) > cap:
+            raise AnalysisError('clause language: too many sequences in one grammar rule')
+        return out
+    sh = lambda x: _grammar_shapes(rules, x, stack, cap)
+    if e is None:
+        return {()}
+    if isinstance(e, G.Token):
+        return {(e.token.upper(),)}
+    if isinstance(e, G.Pattern):
+        return {(f'/{e.pattern}/',)}
+    if isinstance(e, G.RuleRef):
+        if e.name in CATEGORIES:
+            return {(f'<{e.name}>',)}
+        if e.name in stack or e.name not in rules:
+            return {(f'<{e.name}>',)}
+        return _grammar_shapes(rules, rules[e.name].exp, stack + (e.name,), cap)
+    if isinstance(e, (G.Cut, G.Constant, G.EmptyClosure, G.Void, G.Lookahead, G.NegativeLookahead)):
+        return {()}
+    if isinstance(e, G.Choice):
+        out = set()
+        for o in e.options:
+            out |= sh(o)
+        return out
+    if isinstance(e, G.Sequence):
+        cur = {()}
+        for x in e.sequence:
+            cur = cat(cur, sh(x))
+        return cur
+    if isinstance(e, G.Optional):
+        return {()} | sh(e.exp)
+    if isinstance(e, (G.Join, G.Gather)):      # sep.{x}  (PositiveJoin / PositiveGather are subclasses: at least one)
+        one = sh(e.exp)
+        sep = sh(e.sep)
+        two = cat(cat(one, sep), one)
+        positive = isinstance(e, (G.PositiveJoin, G.PositiveGather))
+        return one | two | (set() if positive else {()})
+    if isinstance(e, G.Closure):
+        one = sh(e.exp)
+        two = cat(one, one)
+        return one | two | (set() if isinstance(e, G.PositiveClosure) else {()})
+    cs = _children(e)
+    if len(cs) == 1:
+        return sh(cs[0])
+    if not cs:
+        return {()}
+    raise AnalysisError(f'clause language: grammar construct {type(e).__name__} not understood')
+
+
+def rule_clauselang(P, only=None) -> RuleResult:
+    res = RuleResult('R-CLAUSELANG')
+    res.exhaustive = True
+    text, model, _ = _grammar(P.repo)
+    rules = _rules(model)
+    for name, spec in CLAUSE_LANGUAGE.items():
+        if only and name not in only:
+            continue
+        r = rules.get(name)
+        if r is None:
+            raise AnalysisError(f'anchor vanished: grammar rule {name}')
+        want = _spec_shapes(spec)
+        got = _grammar_shapes(rules, r.exp, (name,))
+        lost = sorted(want - got, key=lambda s: (len(s), s))
+        extra = sorted(got - want, key=lambda s: (len(s), s))
+        if lost:
+            res.fail(f'grammar:{name}', 'clauselang:lost', f'rule {name} no longer derives `{" ".join(lost[0])}`'
+                     f'{f" (and {len(lost) - 1} more forms)" if len(lost) > 1 else ""}: a statement of the published language is rejected')
+        if extra:
+            res.fail(f'grammar:{name}', 'clauselang:extra', f'rule {name} also derives `{" ".join(extra[0]) or "(nothing)"}`'
+                     f'{f" (and {len(extra) - 1} more forms)" if len(extra) > 1 else ""}, which is not a form of the clause: text that is '
+                     f'not BQL is accepted and given some meaning')
+        if not lost and not extra:
+            res.ok({'rule': name, 'forms': len(want), 'agree_with_language': True})
+    return res
+
+
+def rule_clauselang_pivot(P) -> RuleResult:
+    return rule_clauselang(P, only=('pivotby', 'select'))
